@@ -85,6 +85,11 @@ def draw_sched(rng, variant, small=False):
         "preempt_mean": 0,
         "window_pct": 100,
     }
+    if rng.chance(0.15) and s["nthreads"] > 2:
+        # the runtime hands out a smaller team than omp_get_max_threads() announces
+        # (OMP_THREAD_LIMIT below OMP_NUM_THREADS, OMP_DYNAMIC=true): legal for any OpenMP
+        # runtime, and the result must still be the one-thread result
+        s["team_limit"] = rng.randint(2, s["nthreads"] - 1)
     if variant == "simtrace":
         s["preempt_mean"] = rng.choice([3, 10, 30, 100, 1000])
         # windows are keyed by region function: dense pre-emption of a few functions per run
@@ -217,6 +222,7 @@ def run_workload(wl, wp, sched, record=False, replay=None):
         window_pct=sched.get("window_pct", 100),
         poison=sched["poison"],
         window_fn=sched.get("window_fn", 0),
+        team_limit=sched.get("team_limit", 0),
         record=record,
         max_steps=MAX_STEPS,
         replay=replay,
@@ -387,6 +393,8 @@ def run_case(spec):
             stats["runs_with_access_preemption"] += 1
         if sched["chunk_shuffle"]:
             stats["runs_with_chunk_shuffle"] += 1
+        if sched.get("team_limit"):
+            stats["runs_with_team_below_max_threads"] += 1
         dg.add("sched", "%x" % st["trace_hash"])
         multi += st["regions_multi"]
         rp = {"property": PROP, "engine": "simgomp", "case": {"workload": wl, "wparams": wp, "scheds": [sched], "group": spec["group"]}}
@@ -477,6 +485,7 @@ def minimise(v):
 
     tried = 0
     for field, cands in (
+        ("team_limit", [0]),
         ("nthreads", [2, 3, 4]),
         ("chunk_shuffle", [0]),
         ("preempt_mean", [0, 10000, 1000, 100]),
@@ -484,7 +493,7 @@ def minimise(v):
         ("poison", [0]),
     ):
         for c in cands:
-            if sched.get(field) == c or tried > 14:
+            if (sched.get(field) or 0) == c or tried > 14:
                 continue
             if field == "nthreads" and c >= sched["nthreads"]:
                 continue
@@ -601,6 +610,7 @@ def coverage(done, tier):
             "poisoned_malloc_bytes": int(tot["poisoned_bytes"]),
             "runs_with_access_preemption": int(tot["runs_with_access_preemption"]),
             "runs_with_chunk_shuffle": int(tot["runs_with_chunk_shuffle"]),
+            "runs_with_team_below_max_threads": int(tot["runs_with_team_below_max_threads"]),
         },
         "team_size_histogram": teams,
         "strategy_histogram": strats,
